@@ -214,6 +214,7 @@ call_out ()
                 if (setjmp (econ.context))
                   {
                     restore_context (&econ);
+                    clear_error_state (); /* the next call_out must not inherit a limit mark */
                   }
                 else
                   {
